@@ -596,6 +596,8 @@ class EngineProbe:
             self.uids[n] = kdrv.first_uid(r['items'][0])
         self.last = {}
         self.probes = 0
+        self.ecases = ctx.__dict__.setdefault('c18_ecases', {})
+        self.used = ctx.__dict__.setdefault('c18_used_defs', set())
 
     def close(self):
         self.eng.close()
@@ -603,13 +605,15 @@ class EngineProbe:
     def __call__(self, spec, history):
         kdrv, drv, ctx = self.kdrv, self.drv, self.ctx
         exp_store = spec.store()
-        for user in ('alice', 'bob'):
-            r = self.eng.request([kdrv.locate()], user=user)
+        store_now = drv.state()['store']
+        self.used.update(d for _, d in store_now)
+        for user, groups in (('alice', None), ('bob', None), ('carol', ['h', 'g'])):
+            r = self.eng.request([kdrv.locate()], user=user, groups=groups)
             located = set((r['items'][0]['payload'] or {}).get('unique_identifiers') or []) if not r['error'] and kdrv.ok(r['items'][0]) else None
             for n in ENGINE_NAMES:
-                nid = drv.ids.names.get(n)
-                bundle = drv.ids.objs.get(exp_store.get(nid)) if nid is not None else None
-                g = self.eng.request([kdrv.get(self.uids[n])], user=user)
+                nid = drv.ids.name(n)
+                bundle = drv.ids.objs.get(exp_store.get(nid))
+                g = self.eng.request([kdrv.get(self.uids[n])], user=user, groups=groups)
                 it = g['items'][0] if not g['error'] else None
                 got = None
                 if it is not None and kdrv.ok(it):
@@ -617,8 +621,18 @@ class EngineProbe:
                 elif it is not None and it['reason'] == 'PERMISSION_DENIED':
                     got = False
                 for op, observed in (('GET', got), ('LOCATE', None if located is None else self.uids[n] in located)):
-                    want = spec_decision(bundle, user, 'alice', op)
                     self.probes += 1
+                    if observed is not None:
+                        # tie K: the same probe against EngineSide.engine_decision on the store as it is now
+                        c = '(ECase %s %s %s %s %s %s %s %s)' % (
+                            pr_al(store_now, cp.z), cp.z(nid), cp.string('alice'), cp.string('SYMMETRIC_KEY'), cp.string(op),
+                            cp.string(user), cp.option(groups, lambda gs: cp.lst(gs, cp.string)), cp.boolean(observed))
+                        if c not in self.ecases:
+                            self.ecases[c] = {'history': json.loads(json.dumps(history)), 'probe': [n, user, groups, op]}
+                    if groups is not None:
+                        ctx.count('engine.probe.with-groups.%s' % ('allowed' if observed else 'denied'))
+                        continue        # how a definition is evaluated for group members is C03's subject (DESIGN F10)
+                    want = spec_decision(bundle, user, 'alice', op)
                     ctx.count('engine.probe.%s.%s' % (op, 'allowed' if want else 'denied'))
                     k = (n, user, op)
                     if k in self.last and self.last[k] != want:
@@ -666,9 +680,30 @@ def engine_leg(ctx, ex, quick):
     ctx.cov['engine_leg'] = {'probes': n, 'what': 'Get/Locate through KmipEngine.process_request on one engine per history sharing the '
                              "monitor's store; expected decision from the specification's definition for the name"}
     ctx.log('engine leg: %d access probes' % n)
+    ecases = ctx.__dict__.get('c18_ecases', {})
+    used = sorted(ctx.__dict__.get('c18_used_defs', set()))
+    def pr_parsed(v):
+        extra = set(v) - {'preset', 'groups'}
+        if extra:
+            raise TypeError('not a parsed policy: %r' % extra)
+        return '(Parsed %s %s)' % (
+            cp.option(v.get('preset'), pr_ppol),
+            cp.option(v.get('groups'), lambda g: cp.lst(list(g.items()), lambda gv: cp.pair(cp.string(gv[0]), pr_ppol(gv[1])))))
+    table = [(i, ex.drv.ids.objs[i]) for i in used if i in ex.drv.ids.objs]
+    header = (EHEADER + 'Definition dtab_ : list (Z * parsed) := %s.\n'
+              % cp.lst(table, lambda kv: cp.pair(cp.z(kv[0]), pr_parsed(kv[1]))))
+    cl = list(ecases)
+    bad = ctx.run_cases('engine_probe', header, cl, 'check_ecase dtab_',
+                        what='EngineSide.engine_decision on the observed store vs Get/Locate through KmipEngine.process_request')
+    for i in bad[:20]:
+        ctx.disagreement('engine_probe', {'case': cl[i][:600], 'from': ecases[cl[i]]})
+    if cl:
+        ctx.sample({'engine_probe_case': cl[len(cl) // 2][:400]})
 
 
 # ----------------------------------------------------------------------------- the parser
+EHEADER = ('From Coq Require Import List ZArith String.\nFrom PK Require Import Monitor.EngineCases.\n'
+           'Import ListNotations.\nOpen Scope Z_scope.\nOpen Scope string_scope.\n')
 PHEADER = ('From PK Require Import Monitor.ParseCases.\nFrom Coq Require Import List ZArith String.\n'
            'Import ListNotations.\nOpen Scope string_scope.\n')
 
@@ -907,7 +942,7 @@ def run(ctx):
         'engine: one KmipEngine sharing the store through each of the scripted and random histories (add/edit/break/repair/remove/shadow), '
         'Get/Locate by owner and non-owner under every policy name in play after every scan.  '
         'parser: every document of a grammar over the documented shapes and every single-position corruption.' % (4 if quick else 5))
-    ctx.regen(only=['enums', 'policynames'])
+    ctx.regen(only=['enums', 'policynames', 'enginepolicy'])
     ctx.prove('props/C18.v')
 
     ex = Explorer(ctx, 'x')
